@@ -8,6 +8,7 @@ import Driver.C12
 import Driver.Hand
 import Driver.Bcodec
 import Driver.Meta
+import Driver.Mi
 open Driver
 
 def dispatch (line : String) : Verdict :=
@@ -16,6 +17,8 @@ def dispatch (line : String) : Verdict :=
   match l with
   | "C03" :: args => c03 args r
   | "C04" :: args => c04 args r
+  | "C05" :: args => c05 args r
+  | "C17" :: args => c17 args r
   | "C06" :: "hand" :: args => handVerdict "C06" ("hand" :: args) r
   | "C06" :: args => c06 args r
   | "C07" :: args => c07 args r
